@@ -151,6 +151,14 @@ def special_configs(chk, reps):
     return cfgs
 
 
+def long_drain_configs(chk, thorough):
+    """a slow sink and a burst worth 8 s of sink work queued when resetOwnThread() is called (more than any grace period - 3 s of
+    draining + wait(3000) - a stop could apply): every message must still reach the sink, in order, on the logger thread"""
+    shapes = [(16, 500)] + ([(80, 100), (32, 250)] if thorough else [])
+    return [{'mode': 'drain', 'n': 2, 'per': per, 'seed': chk.rng.randrange(1, 2 ** 31), 'perturb': chk.rng.choice([0, 1]), 'sinkdelay': 0,
+             'stall': ms, 'tz': ''} for per, ms in shapes]
+
+
 def stall_configs(chk, total, ms):
     """a stalled sink and a large backlog: the sink sleeps `ms` inside its first delivery while `total` messages are posted;
     no logging call may wait for it"""
@@ -185,13 +193,14 @@ def evaluate(chk, model, cfg, res, stats, report):
     if mode == 'drain' and mc:
         stats['drain_runs'] += 1
         stats['max_call_ms_during_drain'] = max(stats['max_call_ms_during_drain'], int(mc.group(1)) // 1000)
+        stats['max_backlog_ms_at_reset'] = max(stats['max_backlog_ms_at_reset'], quotas[0] * (cfg.get('stall') or 100))
         if int(mc.group(1)) > 500000:
             stats['kinds']['blocked_on_sink'] = stats['kinds'].get('blocked_on_sink', 0) + 1
-            report('a logging call made 200 ms after resetOwnThread() began took %d ms: it waited until the slow sink (100 ms per message) had '
-                   'drained the %d queued messages' % (int(mc.group(1)) // 1000, quotas[0]),
+            report('a logging call made 200 ms after resetOwnThread() began took %d ms: it waited until the slow sink (%d ms per message) had '
+                   'drained the %d queued messages' % (int(mc.group(1)) // 1000, cfg.get('stall') or 100, quotas[0]),
                    dict(cfg, kind='blocked_on_sink', scenario='drain', max_call_ms=int(mc.group(1)) // 1000, queued=quotas[0], header=hdr), 'blocked_on_sink')
     # --- the logging call never waits for a sink
-    if cfg.get('stall') and mc:
+    if cfg.get('stall') and mc and mode != 'drain':
         stats['stalled_sink_runs'] += 1
         stats['max_call_ms_while_sink_stalled'] = max(stats['max_call_ms_while_sink_stalled'], int(mc.group(1)) // 1000)
         if int(mc.group(1)) > cfg['stall'] * 1000 * 2 // 3:
@@ -293,13 +302,13 @@ def run():
     model = vlib.build_model('async')
     impl = vlib.build_harness('async')
     thorough = chk.tier == 'thorough'
-    cfgs = stall_configs(chk, 40000 if thorough else 10400, 1500) + special_configs(chk, 3 if thorough else 1) + gen_configs(chk, 8 if thorough else 2, 1200)
+    cfgs = long_drain_configs(chk, thorough) + stall_configs(chk, 40000 if thorough else 10400, 1500) + special_configs(chk, 3 if thorough else 1) + gen_configs(chk, 8 if thorough else 2, 1200)
     if not proof_ok:
-        cfgs += gen_configs(chk, 3, 1200) + stall_configs(chk, 40000, 2500) + special_configs(chk, 2)
+        cfgs += gen_configs(chk, 3, 1200) + stall_configs(chk, 40000, 2500) + special_configs(chk, 2) + long_drain_configs(chk, True)[1:]
     stats = {'events': 0, 'deliveries': 0, 'kinds': {}, 'model_copies': 0, 'model_disagreements': 0, 'acceptor_runs': 0,
              'max_backlog': 0, 'runs_with_backlog': 0, 'null_ptr_msgs': 0, 'preformatted_msgs': 0,
              'stalled_sink_runs': 0, 'max_call_ms_while_sink_stalled': 0, 'fatal_msgs': 0, 'relog_runs': 0, 'drain_runs': 0,
-             'max_call_ms_during_drain': 0, 'nul_texts': 0}
+             'max_call_ms_during_drain': 0, 'nul_texts': 0, 'max_backlog_ms_at_reset': 0}
     reported = [0]
 
     def report(what, replay, kind):
@@ -308,7 +317,7 @@ def run():
             reported[0] += 1
 
     with concurrent.futures.ThreadPoolExecutor(max_workers=4) as ex:
-        futs = [(c, ex.submit(run_one, impl, c, 40 if c['mode'] in ('relog', 'drain') else 120)) for c in cfgs]
+        futs = [(c, ex.submit(run_one, impl, c, 40 if c['mode'] in ('relog', 'drain') and not c.get('stall') else 120)) for c in cfgs]
         results = [(c, f.result()) for c, f in futs]
     for c, r in results:
         evaluate(chk, model, c, r, stats, report)
@@ -332,7 +341,7 @@ def run():
                             'every 5th message null file/function, every 7th null category, all five message types incl. QtFatalMsg (fatal via '
                             'process()/Logger::processMessage directly), children run under non-UTC POSIX zones (TZ=DEMO-05:30 / XYZ+03), '
                             'the time is compared as msecs+timeSpec+offsetFromUtc+ISO text, send() and flush() entries must be on the logger thread, seeded perturbation at the schedule points, '
-                            'slow/fast sink, plus runs with a sink stalled for 1.5 s under a backlog of >= 10 400 messages (no call may wait for it); '
+                            'slow/fast sink, a burst worth 8 s of sink work queued when resetOwnThread() is called (every message must still be delivered), plus runs with a sink stalled for 1.5 s under a backlog of >= 10 400 messages (no call may wait for it); '
                             'non-trivial = at least two deliveries per producer',
                     'events_recorded': stats['events'], 'deliveries_compared_with_twin': stats['deliveries'],
                     'messages_with_null_pointers': stats['null_ptr_msgs'], 'messages_preformatted': stats['preformatted_msgs'],
@@ -343,7 +352,7 @@ def run():
                     'producers_histogram': {str(n): sum(1 for c, _ in results if c['n'] == n) for n in (1, 2, 4, 8, 16)},
                     'sinkdelay_histogram': {str(d): sum(1 for c, _ in results if c['sinkdelay'] == d) for d in range(3)},
                     'fatal_level_messages': stats['fatal_msgs'], 'texts_with_embedded_NUL': stats['nul_texts'],
-                    'relogging_sink_runs': stats['relog_runs'], 'drain_runs': stats['drain_runs'], 'max_call_ms_during_drain': stats['max_call_ms_during_drain'],
+                    'relogging_sink_runs': stats['relog_runs'], 'drain_runs': stats['drain_runs'], 'max_backlog_ms_queued_at_reset': stats['max_backlog_ms_at_reset'], 'max_call_ms_during_drain': stats['max_call_ms_during_drain'],
                     'tz_histogram': {z or 'inherited': sum(1 for c, _ in results if c.get('tz', '') == z) for z in ('DEMO-05:30', 'XYZ+03', '')},
                     'stalled_sink_runs': stats['stalled_sink_runs'], 'max_call_ms_while_sink_stalled': stats['max_call_ms_while_sink_stalled'],
                     'violation_kinds': stats['kinds'], 'sanitizer_variant': san})
